@@ -212,6 +212,7 @@ def main(argv):
         print("tier must be quick or thorough")
         return 2
     t0 = time.time()
+    os.environ["VERIF_TIER_NOW"] = tier
     try:
         acc = mod.run(tier)
     except HarnessError as e:
